@@ -373,11 +373,19 @@ func (c *checker) expr(e *Node, x ctx) {
 		for _, a := range e.C[1:] {
 			switch a.K {
 			case KArgStarStar:
+				// spec (Function and method calls): positional arguments, then named
+				// arguments, then at most one *args, then at most one **kwargs
+				if seenStarStar {
+					c.err("two-starstar-args", a)
+				}
 				seenStarStar = true
 				c.expr(a.C[0], x)
 			case KArgStar:
 				if seenStar {
 					c.err("two-star-args", a)
+				}
+				if seenStarStar {
+					c.err("star-after-starstar", a)
 				}
 				seenStar = true
 				c.expr(a.C[0], x)
@@ -385,6 +393,9 @@ func (c *checker) expr(e *Node, x ctx) {
 				nnamed++
 				if seenStar {
 					c.err("named-after-star", a)
+				}
+				if seenStarStar {
+					c.err("named-after-starstar", a)
 				}
 				if names[a.S] {
 					c.err("repeated-keyword", a)
